@@ -929,10 +929,11 @@ impl AnimFile {
         for (i, section) in self.sections.iter().enumerate() {
             let section_start = writer.stream_position()? as u32;
             section.write(writer)?;
-            let section_end = writer.stream_position()? as u32;
 
+            // The reader derives the bone count from the entry size (section header plus one
+            // offset per bone), so that is what the size has to cover - not the bone data
             updated_entries[i].offset = section_start;
-            updated_entries[i].size = section_end - section_start;
+            updated_entries[i].size = 16 + 4 * section.bone_animations.len() as u32;
         }
 
         // Update entries
